@@ -94,7 +94,8 @@ def tree_spec(draw, max_dirs=4, max_files=7, hostile=True, hidden=True,
         if p in used:
             continue
         used.add(p)
-        node = {'p': p, 't': 'f', 'm': BASE_MTIME + draw(st.integers(0, 50))}
+        node = {'p': p, 't': 'f', 'm': BASE_MTIME + draw(st.integers(0, 50))
+                + draw(st.sampled_from([0, 0, 0.25, 0.75]))}
         node.update(draw(file_content(big=big)))
         nodes.append(node)
         files.append(p)
